@@ -50,3 +50,37 @@ Example C15_example :
   let e := {| lt_tok := TPunct 61; lt_val := Some [x3d]; lt_line := 1 |} in
   gtoks [a; cm; e; cm; cm; a] = gtoks [a; e; a] /\ is_comment cm = true.
 Proof. vm_compute. split; reflexivity. Qed.
+
+(* The same law on the PARSER: two texts without lexical error whose token lists differ only in comment tokens
+   (any number, any style, at any token boundary) are accepted or rejected alike by cfg_parse_buf, and when accepted
+   leave observably equal trees.  Composition of the C01 refinement (ParserProofs.v) with the statement above;
+   obs_c forgets annotations, so this holds with annotation support on or off. *)
+From LC Require Import Parser LexLemmas LexAll PP_Tok PP_Inv PP_SpecLemmas ParserProofs.
+
+Theorem C15_parser_transparent :
+  forall (strtod_o : str -> strtod_res) (DC k : nat) (w : pw) (c : cfg) (b1 b2 : str) (ts1 ts2 : list ltok)
+         (lf1 lf2 : nat) (p1 p2 : pos) (s1 s2 : lexst) (q1 q2 : pos) (d1 d2 : list diag) (fuel : nat),
+  wready w -> Inv strtod_o (w_env w) DC k c ->
+  lex_all (w_env w) lf1 (scan_begin lex_init (cstr b1)) p1 [] [] = (ts1, TEof, s1, q1, d1) ->
+  lex_all (w_env w) lf2 (scan_begin lex_init (cstr b2)) p2 [] [] = (ts2, TEof, s2, q2, d2) ->
+  filter (fun t => negb (is_comment t)) ts1 = filter (fun t => negb (is_comment t)) ts2 ->
+  length (cstr b1) + measure (w_lex w) + length ts1 + 2 * k + 4 + DC < fuel ->
+  length (cstr b2) + measure (w_lex w) + length ts2 + 2 * k + 4 + DC < fuel ->
+  let '(w1, c1, rc1) := parse_buf strtod_o fuel w c (Some b1) in
+  let '(w2, c2, rc2) := parse_buf strtod_o fuel w c (Some b2) in
+  rc1 = rc2 /\ (rc1 = CFG_SUCCESS -> obs_c c1 = obs_c c2).
+Proof.
+  intros sd DC k w c b1 b2 ts1 ts2 lf1 lf2 p1 p2 s1 s2 q1 q2 d1 d2 fuel Hw HI L1 L2 HF F1 F2.
+  pose proof (c01_parse_buf sd DC k w c b1 ts1 lf1 p1 s1 q1 d1 fuel Hw HI L1 F1) as H1.
+  pose proof (c01_parse_buf sd DC k w c b2 ts2 lf2 p2 s2 q2 d2 fuel Hw HI L2 F2) as H2.
+  destruct (parse_buf sd fuel w c (Some b1)) as [[w1 c1] rc1].
+  destruct (parse_buf sd fuel w c (Some b2)) as [[w2 c2] rc2].
+  rewrite (C15_meaning_of_comment_free_text sd c ts1) in H1.
+  rewrite (C15_meaning_of_comment_free_text sd c ts2) in H2.
+  rewrite HF in H1.
+  destruct H1 as [_ H1]. destruct H2 as [_ H2].
+  destruct (text_meaning sd c (filter (fun t => negb (is_comment t)) ts2)) as [oc|].
+  - destruct H1 as [R1 [O1 _]]. destruct H2 as [R2 [O2 _]]. split; [congruence|]. intros _. congruence.
+  - split; [congruence|]. intros E. rewrite H1 in E. discriminate.
+Qed.
+Print Assumptions C15_parser_transparent.
